@@ -417,7 +417,7 @@ func (r *runner) runCase(cs Case) ([]Obs, string) {
 
 	for i, s := range cs.Steps {
 		before, _ := observe(c, cs.Fib)
-		wantReadErr := false
+		wantReadErr := ""
 		ribOnly := []uint64{}
 		switch s.K {
 		case "q":
@@ -472,10 +472,10 @@ func (r *runner) runCase(cs Case) ([]Obs, string) {
 			}
 			for _, x := range s.Res {
 				_, known := queued[x.ID]
-				if !known {
-					wantReadErr = true // unknown id
-				} else if removes(cs.Fib, x.St) && (term[x.ID] || !pendSet[x.ID]) {
-					wantReadErr = true // duplicate terminal result
+				if !known && wantReadErr == "" {
+					wantReadErr = fmt.Sprintf("result (%d, %s) for an id that was never queued", x.ID, stCoq(x.St))
+				} else if removes(cs.Fib, x.St) && (term[x.ID] || !pendSet[x.ID]) && wantReadErr == "" {
+					wantReadErr = fmt.Sprintf("second terminal result (%d, %s)", x.ID, stCoq(x.St))
 				}
 				if removes(cs.Fib, x.St) {
 					term[x.ID] = true
@@ -621,8 +621,8 @@ func (r *runner) runCase(cs Case) ([]Obs, string) {
 				note(i, "operation %d completed %d times", id, nterm[id])
 			}
 		}
-		if wantReadErr && o.RE == 0 {
-			note(i, "protocol violation by the server (unknown id or duplicate terminal result in %s) did not surface as an error", s.coq())
+		if wantReadErr != "" && o.RE == 0 {
+			note(i, "protocol violation by the server did not surface as an error: %s in %s (fib_ack=%v); no receive error recorded", wantReadErr, s.coq(), cs.Fib)
 		}
 		if before.RE > o.RE || before.SE > o.SE {
 			note(i, "recorded errors disappeared")
